@@ -369,7 +369,7 @@ def run(tier, seed, budget):
                        'covered by a completed fsync/msync are durable; directory entries need a directory fsync', 'bytes of WAL writes are taken from the final file '
                        '(the checker counts overlapping writes; rolled-back headers are zeros either way)', 'io_uring batch writes go through O_SYNC handles under SyncEach']
     binary = common.build('wsrv', 'debug')
-    tasks = [{'binary': binary, 'seed': seed, 'idx': i, 'max_prefixes': 14 if q else 120, 'max_choices': 3 if q else 12} for i in range(9 if q else 150)]
+    tasks = [{'binary': binary, 'seed': seed, 'idx': i, 'max_prefixes': 14 if q else 60, 'max_choices': 3 if q else 8} for i in range(9 if q else 150)]
     for t, res in pmap(workload, tasks, budget_s=budget):
         if isinstance(res, Exception):
             rep.add_inconclusive(repr(res)); continue
